@@ -162,6 +162,31 @@ func execNonceHistory(a []string) string {
 	}
 	re := &recEncryptor{Encryptor: en}
 	seen := make(map[string]int, count)
+	// the two-step API: a message is encrypted now and encoded later, after many further messages were encrypted (a batch);
+	// the last 1024 message objects are held and looked at again when they leave the window
+	type held struct {
+		m     *cose.Encrypt0Message[[]byte]
+		nonce []byte
+		i     int
+	}
+	const window = 1024
+	ring := make([]held, 0, window)
+	later := func(h held) string {
+		iv, _ := h.m.Unprotected.GetBytes(iana.HeaderParameterIV)
+		if string(iv) != string(h.nonce) {
+			return fmt.Sprintf("PUBLISHED-IV-CHANGED-AFTER-ENCRYPT message #%d: sealed under %x, now publishes %x", h.i, h.nonce, iv)
+		}
+		if h.i%64 == 0 {
+			out, err := h.m.MarshalCBOR()
+			if err != nil {
+				return fmt.Sprintf("LATER-ENCODE-FAILED message #%d", h.i)
+			}
+			if back, err := cose.DecryptEncrypt0Message[[]byte](en, out, nil); err != nil || len(back.Payload) != 1 || back.Payload[0] != byte(h.i) {
+				return fmt.Sprintf("ENCODED-LATER-NOT-DECRYPTABLE message #%d", h.i)
+			}
+		}
+		return ""
+	}
 	for i := 0; i < count; i++ {
 		m := &cose.Encrypt0Message[[]byte]{Payload: []byte{byte(i)}}
 		re.nonces, re.aads = re.nonces[:0], re.aads[:0]
@@ -179,6 +204,20 @@ func execNonceHistory(a []string) string {
 			return fmt.Sprintf("REPEATED nonce %x for fresh messages #%d and #%d", iv, j, i)
 		}
 		seen[string(iv)] = i
+		h := held{m: m, nonce: append([]byte{}, re.nonces[0]...), i: i}
+		if len(ring) < window {
+			ring = append(ring, h)
+		} else {
+			if bad := later(ring[i%window]); bad != "" {
+				return bad
+			}
+			ring[i%window] = h
+		}
+	}
+	for _, h := range ring {
+		if bad := later(h); bad != "" {
+			return bad
+		}
 	}
 	// the other consumer of the random source: 32-bit draws (used for kids / counters by callers); over `count` draws the
 	// number of distinct values must be what a uniform source gives (birthday bound with a wide margin), never a constant
